@@ -132,7 +132,7 @@ def run(ctx):
                 "evaluations = pairwise comparisons + comparisons with the reference.",
         "input_distribution": {
             "configurations": summary.get("configurations"),
-            "legs": {k: {kk: v.get(kk) for kk in ("items", "comparisons", "inconclusive_step_limit",
+            "legs": {k: {kk: v.get(kk) for kk in ("items", "comparisons", "inconclusive_step_limit_or_solver",
                                                    "nonlinear_solver_not_applicable", "configs", "run_errors")}
                      for k, v in legs.items()},
             "gen_constructs": summary.get("gen_constructs"),
